@@ -102,6 +102,11 @@ CHECKS["C17"] = dict(
     design="6 (C17)", technique="Coq proof (invariant over every callback of the loop model, codec round trip reuse from C01, session cycle from C08) + exact trace correspondence on a virtual-time loop + extracted checker",
     note=COMMON_NOTE + " Loop-level: asyncio tasks, gather, Event and getaddrinfo are MODELLED (hop rules calibrated against CPython 3.12 under the virtual-time loop); the model never runs late.")
 
+CHECKS["C04"] = dict(
+    text="Composed model (Model/System.v): two stack models, each on its own loop model, and a network with an oracle-driven fault window, graceful stop/start, crash, restart. Coq theorems (interface lemmas of the composition, every state): crashed node silent, restarted node fresh, its first message carries (reboot flag, id 1) and is detected by every peer that heard from it before and by nobody else, network reliable / in order / constant latency outside the fault window, latency >= 1 tick; component guarantees from C05-C11, C14. NOT proved: the convergence statement over the composed model. It is decided on every run by executing the composed model and TWO REAL STACKS on two virtual-time loops over the same scenarios (both complete traces compared event by event) and judging the implementation traces with the extracted check_C04 (truth from the control events alone; views after last disturbance + TTL + period must equal the truth and stay).",
+    design="6 (C04)", technique="Coq interface lemmas of the two-stack composition + executable composed model with exact two-stack trace correspondence on virtual-time loops + extracted convergence checker",
+    note=STACK_NOTE + " For C04 the claim rests mainly on the co-simulation (exploration strength for the convergence statement itself); crash = the world is discarded, restart = fresh world; real-time lateness and real sockets are outside the model.")
+
 NOT_YET = {}
 
 
